@@ -689,7 +689,13 @@ impl Database {
                     let index_storage_arc =
                         file_manager.index_data_mut(schema_name, table_name, &index_name)?;
                     let mut index_storage = index_storage_arc.write();
-                    let index_btree = BTree::new(&mut *index_storage, root_page)?;
+                    // each index file has its own root page (not the table's)
+                    let index_root_page = {
+                        use crate::storage::IndexFileHeader;
+                        let page = index_storage.page(0)?;
+                        IndexFileHeader::from_bytes(page)?.root_page()
+                    };
+                    let index_btree = BTree::new(&mut *index_storage, index_root_page)?;
                     let mut index_cursor = index_btree.cursor_first()?;
 
                     let mut index_keys_to_delete: Vec<Vec<u8>> = Vec::new();
@@ -698,7 +704,7 @@ impl Database {
                         index_cursor.advance()?;
                     }
 
-                    let mut index_btree_mut = BTree::new(&mut *index_storage, root_page)?;
+                    let mut index_btree_mut = BTree::new(&mut *index_storage, index_root_page)?;
                     for key in &index_keys_to_delete {
                         index_btree_mut.delete(key)?;
                     }
